@@ -153,7 +153,7 @@ CHECKS = {
          'to exactly its content; white space (any amount, possibly none) at ANY subset of the token boundaries never changes the token '
          'sequence when the local next-character condition holds (punctuation before anything; numbers, names, cells, text before white '
          'space / operators / separators / closing brackets; a function name before its parenthesis only); the three separators, chosen independently at every call (any number of arguments that are arbitrary expressions, any nesting), never change record or events; for every present/absent pattern of up to 6 slots the three separators agree and an accepted call passes '
-         'exactly the slot list; a flat array literal of any length over arbitrary item expressions is the list of its item values (two-row literals: finite cases); labels are case-insensitive. Tied to the code by the lexer '
+         'exactly the slot list; a flat array literal of any length over arbitrary item expressions is the list of its item values, and a literal with two rows of any length >= 2 the list of the two rows; labels are case-insensitive. Tied to the code by the lexer '
          'correspondence on every string of length <= 3/4 over 26 class representatives and formulas through Parser.parse.',
     design='7/C05',
     note='Python re is modelled by hand-written recognisers (first-match in ply rule order, validated against the real lexer); '
